@@ -88,7 +88,9 @@ func init() {
 			}
 			return out
 		},
-		Tune: func(in *exec.Instance, tier string) { in.Redirect = map[string]string{rsEncode: "utils:VPRSEncodeSummary"} }})
+		Tune: func(in *exec.Instance, tier string) {
+			in.Redirect = map[string]string{rsEncode: "utils:VPRSEncodeSummary"}
+		}})
 	reg(&Oblig{ID: "QR-C", Pkg: "qr", Func: "VP_QR_render", Props: []string{"C01", "C12", "C11"},
 		Desc:  "render for symbolic codewords: every module of the returned symbol equals the ISO layout (finder/separator/timing/alignment/dark module, both format words = BCH(level, mask) ^ 0x5412, both version words, zig-zag placement, the mask named by the format word, remainder bits) for whichever of the 8 candidates is chosen; pixel colours; bounds",
 		Real:  []string{"qr.render", "qr.drawFinderPatterns", "qr.drawAlignmentPatterns", "(*qr.versionInfo).alignmentPatternPlacements (concrete floats)", "qr.drawFormatInfo", "qr.drawVersionInfo", "qr.iterateModules (2 goroutines)", "qr.setMasked", "(*qr.qrcode).Get/Set/At/Bounds", "qr.newBarCodeWithColor"},
